@@ -87,6 +87,13 @@ def value(kind, kwargs):
         return (s, -s - 1.0, s * 0.5 + 3.0)
     if kind in ("array", "array-constdim"):  # one output that is a length-3 list
         return [s, s + 0.5, -s]
+    if kind == "ndarray":  # the same as a numpy array (what user functions usually return)
+        return np.array([s, s + 0.5, -s])
+    if kind == "intarray":  # integer dtype: nan does not fit into it
+        n = number(kwargs)
+        return np.array([n, n + 1, -n], dtype=np.int64)
+    if kind == "ndarray2d":  # 3 x 2: first axis = what split=True separates
+        return np.array([[s, s + 1.0], [s + 2.0, -s], [s * 0.5, s + 3.0]])
     if kind == "scalar+array":  # two outputs: scalar and 2x2 nested list
         return (s, [[s, s + 1.0], [s + 2.0, -s]])
     if kind == "bool":
